@@ -81,6 +81,10 @@ def build(spec):
             return _REG[spec["cls"]](**kw)
         if "nd" in spec:
             a = np.array(spec["nd"], dtype=spec.get("dtype", "float64"))
+            if spec.get("form") == "list":      # the same numbers as a plain Python list (array-like)
+                return a.tolist()
+            if spec.get("form") == "series":    # ... or as a pandas Series with string labels
+                return pd.Series(a, index=[f"c{i}" for i in range(len(a))]) if a.ndim == 1 else a
             return np.asfortranarray(a) if spec.get("order") == "F" else a
         if "np" in spec:  # a NumPy scalar: {"np": "float32", "v": 1.5}
             return np.dtype(spec["np"]).type(spec["v"])
